@@ -3,13 +3,13 @@ Proof: AdfProps/C17.lean (every stored sector has exactly 512 defined bytes in e
 a write stores the zero-padded buffer; the outcome of a program is independent of the access log — the model's output is
 a function of calls, arguments, clock and prior disk only).
 Tie (the heart of this property): every profile runs on TWO builds of the real library that differ in what
-uninitialised memory holds (stack: -ftrivial-auto-var-init=pattern vs =zero; heap: malloc filled with 0xA5 vs 0x5A);
+uninitialised memory holds (stack: -ftrivial-auto-var-init=pattern vs =zero; heap: malloc filled with 0xA5 vs 0x00);
 results and the hash of every block handed to the device must be identical between the two builds AND equal to the
 model's.  Thorough: valgrind memcheck checks definedness of every buffer reaching the device write function."""
 import json, subprocess, os, vlib, gen, hist
 from props import histprop
 PID = "C17"
-MIX = [("geom", {}), ("names", {}), ("file", {}), ("dirc", {}), ("full", {}), ("extbound", {}), ("rdb", {}), ("geom", {}), ("bigrm", {}), ("openchain", {}), ("dircspill", {})]
+MIX = [("geom", {}), ("names", {}), ("file", {}), ("dirc", {}), ("full", {}), ("extbound", {}), ("rdb", {}), ("geom", {}), ("bigrm", {}), ("openchain", {}), ("dircspill", {}), ("extfull", {}), ("extfull", {})]
 
 def run(res):
     res.cov["rule"] = ("format of floppies / hardfiles (incl. >25 bitmap pages) / partitioned disks, and namespace / file / dircache / exhaustion histories, each executed by two "
@@ -29,7 +29,7 @@ def run(res):
     from concurrent.futures import ThreadPoolExecutor
     def one(ops):
         ra, ca, ea = vlib.run_c(exeA, ops, env={"ADFH_FILL": "0xA5"})
-        rb, cb, eb = vlib.run_c(exeB, ops, env={"ADFH_FILL": "0x5A"})
+        rb, cb, eb = vlib.run_c(exeB, ops, env={"ADFH_FILL": "0x00"})
         rl, lb, le = vlib.run_lean(ops)
         return ops, (ra, ca), (rb, cb), (rl, lb)
     bad, ties = [], []
